@@ -459,6 +459,12 @@ class Points:
         if (isinstance(idx, int) and not isinstance(idx, bool)) or isinstance(idx, Sym):
             iz = models.norm_index(eng, idx, self.n, "point index")
             return NArr((3,), [Sym(z3.Select(c, iz), "real") for c in self.cols], "real")
+        if isinstance(idx, tuple) and len(idx) in (2, 3) and all(_is_full(x) for x in idx[2:]):
+            # P[:, None] / P[:, None, :] = P.reshape((-1, 1, 3)),  P[None, :] / P[None, :, :] = P.reshape((1, -1, 3))
+            if _is_full(idx[0]) and idx[1] is None:
+                return Resh(self, "col")
+            if idx[0] is None and _is_full(idx[1]):
+                return Resh(self, "row")
         raise Unsupported("index form on the point cloud")
 
     def __pyvc_setitem__(self, eng, idx, val):
@@ -591,7 +597,43 @@ class PairDiff(XArr):
         self.pts, self.swapped = pts, swapped
 
     def __pyvc_binop__(self, eng, op, a, b):
+        if (isinstance(op, ast.Pow) and a is self and b == 2 and not isinstance(b, bool)) or (isinstance(op, ast.Mult) and a is self and b is self):
+            used(eng, "D ** 2 / D * D of the (n, n, 3) array of pairwise differences: the array of squared coordinate differences")
+            return SqDiff(self.pts)
         raise Unsupported("arithmetic on the pairwise-difference array")
+
+
+class SqDiff(XArr):
+    """(P[a] - P[b]) ** 2, shape (n, n, 3)"""
+
+    def __init__(self, pts):
+        super().__init__(z3.K(I, z3.RealVal(0)), pts.n, "real", name="sqdiff")
+        self.pts = pts
+
+    def get(self, i):
+        raise Unsupported("1-D access to the squared pairwise differences")
+
+    def __pyvc_getitem__(self, eng, idx):
+        raise Unsupported("subscript of the squared pairwise differences")
+
+    def __pyvc_getattr__(self, eng, name):
+        if name == "sum":
+            return NativeMethod(_sqdiff_sum, self, name)
+        raise Unsupported(f"attribute {name} of the squared pairwise differences")
+
+    def __pyvc_binop__(self, eng, op, a, b):
+        raise Unsupported("arithmetic on the squared pairwise differences")
+
+
+def _sqdiff_sum(eng, recv, args, kwargs):
+    axis = kwargs.get("axis", args[0] if args else None)
+    if axis not in (2, -1) or len(args) > 1 or set(kwargs) - {"axis"}:
+        raise Unsupported("sum of the squared pairwise differences: only over the last axis")
+    used(eng, "S.sum(axis=2) of the (n, n, 3) array of squared coordinate differences: the (n, n) matrix of squared Euclidean distances (a sum of three squares)")
+    P = recv.pts
+    out = M2(lam2(lambda a, b: sumsq(P, a, b)), P.n, P.n, "real", name="sqdist")  # (x_a - x_b)^2 is symmetric: the order of the two views does not matter
+    out.fp = FP(True, nonneg=True, ops=5)  # 1 (difference of inputs) -> 3 (square) -> 5 (sum of three, all non-negative)
+    return out
 
 
 def _np_norm(eng, args, kwargs):
@@ -757,6 +799,20 @@ def _np_where(eng, args, kwargs):
         k = npmodels._join_kind(ks[0], ks[1])
         used(eng, "np.where(C, x, y) on an (n, m) boolean matrix: cell (a, b) is x[a, b] where C[a, b], else y[a, b] (scalars broadcast)")
         carr = c.arr
+        import math
+
+        ops = [x, y]
+        for t in (0, 1):
+            if isinstance(ops[t], float) and math.isinf(ops[t]):
+                # +-inf next to a matrix of finite reals: a constant beyond every cell of the other operand (floats are reals: cells are finite)
+                o = ops[1 - t]
+                if not isinstance(o, M2):
+                    raise Unsupported("np.where with an infinite scalar and a scalar")
+                used(eng, "np.inf / -np.inf in np.where(C, inf, M): a real constant larger / smaller than every cell of M (floats are reals, cells are finite)")
+                inf, oarr, pos = z3.Const(fresh_name("inf"), z3.RealSort()), o.arr, ops[t] > 0
+                eng.assume(_cells2(c.nz(), c.mz(), lambda a, b: (sel2(oarr, a, b) < inf) if pos else (sel2(oarr, a, b) > inf)))
+                ops[t] = Sym(inf, "real")
+        x, y = ops
         g = [(lambda a, b, _v=v: to_z3(Sym(sel2(_v.arr, a, b), _v.kind), k)) if isinstance(v, M2) else (lambda a, b, _z=to_z3(v, k): _z) for v in (x, y)]
         return M2(lam2(lambda a, b: z3.If(sel2(carr, a, b), g[0](a, b), g[1](a, b))), c.n, c.m, k, name="where")
     return npmodels._np_where(eng, args, kwargs)
@@ -894,7 +950,7 @@ def install():
 
     models.EXTRA_MODELS.update({
         np.zeros: _np_zeros, np.ones: _np_ones, np.full: _np_full, np.linalg.norm: _np_norm, np.concatenate: _np_concatenate,
-        ma.array: _ma_array, np.unravel_index: _np_unravel_index, pd.DataFrame.from_dict: _df_from_dict, np.where: _np_where,
+        ma.array: _ma_array, ma.masked_array: _ma_array, np.unravel_index: _np_unravel_index, pd.DataFrame.from_dict: _df_from_dict, np.where: _np_where,
         np.einsum: _np_einsum, np.sqrt: _np_sqrt, np.maximum: _np_maximum,
     })
     # binary operators on the extension arrays: the engine sends every SArr operand to models.array_binop; values that
